@@ -85,7 +85,14 @@ T_ChainIsUnits == \A p \in AllPos : \A k \in 1..(MaxDepth - p[1]) :
 \* the tiles with a coordinate in Band(n, 1) are exactly those with a corner on a fold line
 T_BandTouches == \A n \in 2..MaxDepth : \A p \in Positions(n) :
                    TouchesFold(TileAt(p)) <=> (\E i \in 1..4 : p[2] = Band(n, 1)[i] \/ p[3] = Band(n, 1)[i])
-\* the fold lines carry the four anchored meridians: their level-1 points are anchored with lat = 0 or at a pole
-T_FoldLinesAnchored == \A p \in {q \in Lattice : Lvl(q) <= 1} : OnFoldLine(p)
+\* a fold line stays on its meridian: a lattice point on one of the six lines is the midpoint of two points of the same
+\* line (so its sphere point lies on the great circle through the line's anchored level-1 points); stated over the
+\* corners of the tiles to MaxDepth
+FoldLineSet == {<<ax, v>> : ax \in {1, 2}, v \in {0, H, S}}
+OnLine(q, l) == q[l[1]] = l[2]
+T_FoldLinesClosed == \A pos \in AllPos : \A k \in 1..4 : LET p == TileAt(pos).c[k] IN
+                       \A l \in FoldLineSet : OnLine(p.pt, l) => \A q \in p.def : OnLine(q, l)
+\* (every theorem above quantifies over AllPos / levels to MaxDepth only: a run that evaluates single deep tiles sets
+\* MaxDepth = 1 and a large R, and TLC, which evaluates constant definitions eagerly, is done with them at once)
 
 =============================================================================
